@@ -52,6 +52,18 @@ def run(ck: Check, only=None):
                     impl.append(line)
                 if idx == 4000:
                     ck.sample({"atom": atom, "data": data.hex(), "impl": line})
+    for sets in ((b"", b""), (b"", b";"), (b"}", b""), (b"]", b"["), (b"a", b"a")):
+        for data in (b"var a = f(1)\nvar b = g(2)\n\nprint(a, b)\n", b"x;y}z\r\n]a[\n", b"\n\n", b"DDBEGIN\na;\nb\nDDEND\n", b"no newline"):
+            line, t, out = impl_load("symbol", data, sets[0], sets[1])
+            ck.count("symbol-sets")
+            ck.nontrivial(("symbol-sets", sets, data))
+            if t is None:
+                if line != "err LithiumError":
+                    ck.violation(f"[symbol sets={sets}] load raised {line} on {data!r}", {"atom": "symbol", "data": data.hex(),
+                                 "cut_before": sets[0].hex(), "cut_after": sets[1].hex()})
+            elif t.before + b"".join(t.parts) + t.after != data or out != data or any(not p for p in t.parts):
+                ck.violation(f"[symbol sets={sets}] {data!r}: before+atoms+after = {t.before + b''.join(t.parts) + t.after!r}, dump {out!r}",
+                             {"atom": "symbol", "data": data.hex(), "cut_before": sets[0].hex(), "cut_after": sets[1].hex()})
     reload_same_object(ck)
     from scale import big_dump_identity, big_load_identity
     big_dump_identity(ck)
